@@ -25,16 +25,19 @@ CLAIMED = {
             "Lean theorems insert_preserves_curve (function level: spans found by the library's linear search before and after, EVERY parameter of the domain incl. both ends), insert_sequence_preserves (ANY sequence of admissible insertions, by induction over the request list, well-formedness preserved) and insert_preserves_curve_point: for every degree, sorted knot vector, control polygon of any dimension (homogeneous points for rational curves), "
             "insertion parameter with any prior multiplicity s, any count r with r+s<=p, and EVERY evaluation parameter, the point computed by A2.2/A3.1 from the model of "
             "helpers.knot_insertion / knot_insertion_kv equals the original point (polar-form refinement theorem, no bound on anything); plus: knot vector gains exactly r "
-            "copies (multiset), stays sorted, net grows by r, over-multiplicity requests are rejected. The model (including the per-direction gather/scatter for surfaces "
+            "copies (multiset), stays sorted, net grows by r, over-multiplicity requests are rejected; surfaces in both directions and VOLUMES in all three directions "
+            "(insert_u/v/w_preserves_volume_point at given spans, insert_u/v/w_preserves_volume with the linear-search spans for every parameter triple of the domain; the whole homogeneous point is preserved, hence rational shapes; "
+            "insertKnotDir_volume ties the object-level model to mapVol with A5.1 on every iso-curve). The model (including the per-direction gather/scatter for surfaces "
             "and volumes and the partial application when a later direction is rejected) is tied to operations.insert_knot and the insert_knot methods by exact correspondence.",
-            "Surfaces: proved for both directions (insert_u/insert_v_preserves_surface_point: the gather / scatter of iso-curves of the model preserves every surface point). Not proved: volumes (model + correspondence + exact oracle only); A5.1's in-place loops vs the model's index-by-index form is tied by correspondence."),
+            "Surfaces: proved for both directions (insert_u/insert_v_preserves_surface_point: the gather / scatter of iso-curves of the model preserves every surface point). Volumes: proved for all three directions. Not proved: the request-list induction (sequences, several directions in one call) for surfaces / volumes (curves only); A5.1's in-place loops vs the model's index-by-index form is tied by correspondence."),
     'C05': ("7/C05",
-            "The executable model of helpers.knot_refinement is specification-level: the list X the code computes (default knot list, density bisection rounds, "
-            "p - s copies) inserted one knot at a time with the A5.1 model whose shape preservation is proved for all inputs (C04). Lean theorems: the density round "
-            "bisects every interval (length 2n-1, even entries = old knots, odd entries = midpoints strictly between), X has p - s copies per knot, refinement = fold of "
-            "insertions, result sizes grow by |X|. That the code's A5.4 returns exactly these control points and knots is checked by exact correspondence through "
-            "operations.refine_knotvector on curves, surfaces and volumes (all direction subsets, densities 1..2).",
-            "refine_preserves_curve is proved for curves (fold of insertions, every parameter, under the per-knot admissibility predicate RefineOk); the lifting to surfaces / volumes and the discharge of RefineOk for the generated list X from sortedness + tolerance separation are not proved; A5.4's loops themselves are not modelled (spec-level model)."),
+            "Lean theorems over the executable model, for any degree, dimension, density and ordered field: the admissibility predicate RefineOk is DISCHARGED for the knot list X the library generates (counting argument under tolerance separation, any order); "
+            "knotRefinement and knotRefinementOf (explicit knot_list / add_knot_list) preserve every curve point on the whole domain (hypotheses: well-formed curve, clamped end, 0 <= tol, knots pairwise equal or more than tol apart); the refined knot vector is sorted and "
+            "equals the old one plus X as a multiset, both sizes grow by |X|, every interior knot of the result has multiplicity exactly the degree, the distinct domain knots are the density-fold bisection of the old ones (closed form l_i + (l_{i+1}-l_i) r / 2^d); "
+            "refine_knotvector leaves density-0 directions untouched (any dimension); refineDir in u and v and refine_knotvector on any subset of a surface's directions preserve every surface point and the domain. "
+            "The model of helpers.knot_refinement is specification-level (the list X the code computes, inserted one knot at a time with the A5.1 model proved shape preserving in C04); that the code's A5.4 returns exactly these knots and control points "
+            "is checked by exact correspondence through operations.refine_knotvector on curves, surfaces and volumes (all direction subsets, densities 1..2) and at helper level with explicit knot lists.",
+            "Not proved: volumes (only the untouched directions; shape preservation by oracle + correspondence); A5.4's loops themselves are not modelled (specification-level model), so 'A5.4 as coded = fold of insertions' rests on the correspondence. F-05a / F-05b (helper-level refinement with explicit knot lists) were reported with replays and fixed."),
     'C06': ("7/C06",
             "Lean theorems: removing r knots at the position where r copies were inserted restores the knot vector; sizes. The model knotRemoval mirrors A5.8 as coded after "
             "the repair of defect F-06 (fix: commit in /repo; the check reported the violation with a replay on the pinned tree first) and is tied to operations.remove_knot / "
@@ -77,15 +80,18 @@ CLAIMED = {
             "Lean theorems: affine invariance of curve evaluation (if every control point of Q is the image of the corresponding point of P under one affine map of the coordinates, "
             "every evaluated point of Q is the image of the evaluated point of P; uses partition of unity; any degree / knots / span / parameter / dimension; covers translation, scaling and "
             "rotation about any centre with ANY c, s); the general lemmas for combinations with coefficients summing to one (surfaces, volumes) and for linear maps in homogeneous coordinates "
-            "(rational shapes); the model's translate / rotate formulas. The model (maps act on Cartesian points, weights unchanged, rotation centre = evaluated start point, cos/sin passed as the "
+            "(rational shapes); the model's translate / rotate formulas; assembled theorems for curves, surfaces and volumes, rational and not: for any affine coordinate map f (translatePt, scalePt, rotatePt with any c, s, and "
+            "compositions - each proved affine) eval(net.map (onCartesian rat f)) = f(eval net) after projection with weights unchanged; the model's three-step rotate is one such map (rotate_net_*), fully assembled for volumes. The model (maps act on Cartesian points, weights unchanged, rotation centre = evaluated start point, cos/sin passed as the "
             "doubles Python computes) is tied to operations.translate / rotate / scale on all six classes by exact correspondence; the oracle also checks inplace semantics, input snapshots and containers.",
-            "Surfaces: proved (surface_affine_invariance). Not proved: the assembled statements for volumes / rational shapes as theorems about the model functions (general lemmas are); object identity and containers are runtime notions (oracle only)."),
+            "Rational statements assume positive weights; the fully assembled rotate theorem is written for volumes (curves / surfaces follow from rotate_net_*, affine_maps_compose, transformed_*_point); object identity and containers are runtime notions (oracle only)."),
     'C18': ("7/C18",
             "Lean theorems (any degree, knots, span, parameter, dimension): for every linear functional the value at the evaluated curve point lies between any bounds of the functional on the p+1 active "
             "control points (convex hull via all separating directions); every coordinate lies within the bounds of the control net (bounding box); clamped start and end: with p equal knots at the span "
-            "start / end A2.2 returns (1,0,..,0) / (0,..,0,1) and the evaluated point is the first / last active control point; rational coefficients N_i w_i / sum are non-negative and sum to one. "
+            "start / end A2.2 returns (1,0,..,0) / (0,..,0,1) and the evaluated point is the first / last active control point; rational coefficients N_i w_i / sum are non-negative and sum to one; "
+            "the same hull theorem for surfaces and volumes (volume point = convex combination with the triple tensor coefficients), for rational curves / surfaces / volumes with positive weights (evaluated weight positive, projected point "
+            "in the hull of the projected control points), and every evaluated point lies inside boundingBox of the (Cartesian) net (boundingBox proved to bound every net point). "
             "Model function boundingBox tied to the bbox property by exact correspondence; the exact oracle checks hull (axes + random directions), bbox, clamped ends on curves, surfaces, volumes, rational or not.",
-            "Surfaces: proved (surface_point_in_hull, every separating direction). Not proved: the volume hull theorem as a statement about volumePointAt; curve length bounds (floating point sqrt, oracle only)."),
+            "Statements are at given-span level (SpanOk); the tie to the span search is C03. Not proved: curve length bounds (floating point sqrt, oracle only)."),
     'C09': ("7/C09",
             "Lean theorems (23, all discharged): the list helpers combine / separate / generate_* are mutually inverse; for EVERY history of the three setters, the three reads and reverse the views "
             "satisfy ctrlptsw = combine(ctrlpts, weights) (invariant by induction over the op list); setter round trips; bspline_to_nurbs / nurbs_to_bspline; unit weights evaluate identically and a common "
